@@ -164,12 +164,12 @@ def _loss_call(e5, t):
 
 
 def r3(ctx, inner=None, il=None, ipb=None):
-    """accuracy rule, decided on the E5 summary of Network::validate: per sample, which value is reported as accuracy under
+    """accuracy rule, decided on the E6 summary of Network::validate: per sample, which value is reported as accuracy under
     which conditions on the last layer / its activation / the target length (independent of match-vs-if-let, helper
     extraction, early returns, branch order)."""
     c = ctx.crate
     fn = ctx.fn("network::Network::validate")
-    from .. import e5
+    from .. import e6 as e5
     E = e5.Exec(c, fn)
     E.run_fn()
     # the per-sample closure: its value is a pair whose first component is objective.loss(prediction, target)
